@@ -448,6 +448,13 @@ pub fn aiow_handler(a: &[&str]) -> String {
     let mut verdict: Result<(), String> = Ok(());
     let mut expect: Vec<u8> = Vec::new();
     let mut nwz = 0;
+    // a writer built over a recycled, non-empty buffer (with_buffer) is idle: sync before the first write writes nothing
+    {
+        let snk2 = ScriptedAsyncWrite { writes: Vec::new(), sched: VecDeque::new(), calls: 0, zeros: 0, budget: 4 };
+        let mut w2 = AsyncWriter::with_buffer(snk2, vec![0xaa; 16]);
+        let r = { let mut fut = Box::pin(w2.sync()); fut.as_mut().poll(&mut cx) };
+        if !matches!(r, Poll::Ready(Ok(()))) || w2.writer().calls != 0 { verdict = verdict.and(Err("sync on a fresh writer over a recycled buffer wrote to the sink".into())) }
+    }
     for (i, v) in vals.iter().enumerate() {
         let payload = bytes_item(&v.content);
         let accepted = !v.fail && payload.len() <= max as usize;
